@@ -102,6 +102,20 @@ CHECKS = {
              "Pool.imap yields f(x) once per x for every schedule, pickling preserves values (T-POOL); tqdm is the identity.",
         technique="contract-based deductive verification: loop (fold) invariants over abstract sequences + path-complete symbolic "
                   "execution of the real functions with external calls replaced by assumed contracts"),
+    "C19": dict(
+        category="proof",
+        text="String contracts over symbolic strings of any length: split_resolved_shortcode returns exactly (NAME, BODY) for every "
+             "well-formed line (NAME in \\w+, BODY any non-newline text incl. parentheses/commas/braces, optional newline) because "
+             "the regex decomposition is unique, and raises ValueError for every other line; split_compounds returns the marked "
+             "block and the rest in braces and loses nothing when nothing precedes the first marker (the general case is refuted: "
+             "known finding F20); load_insn_behavior is verified for files of any length by a fold invariant using the two helper "
+             "contracts (only '#' lines are skipped, malformed lines raise). The real pattern strings are read from the source and "
+             "translated mechanically; all 2181 bundled lines / 72 compounds are ground obligations.",
+        design_ref="DESIGN.md section 3, C19",
+        note=TRUST + "T-RE: the sre-parse -> SMT-LIB regex translation and the leftmost-match rule; ASCII strings; cvc5 1.4 "
+             "(strings) discharges what z3's sequence solver leaves unknown; counter-models come from a length-bounded model search.",
+        technique="contract-based deductive verification: AST->SMT string/regex verification conditions (z3 seq + cvc5 strings) on "
+                  "the real functions, fold invariant over file lines, modular helper contracts, native replay"),
 }
 
 NOT_APPLICABLE = {
